@@ -19,6 +19,11 @@ def logp(s):
     return -0.5 * jnp.sum((s["x"] - 1.0) ** 2) - 0.5 * jnp.sum(s["y"] ** 2)
 
 
+def logp_pos(s):
+    """y must be positive: the log-density is NaN outside the support."""
+    return -0.5 * jnp.sum((s["x"] - 1.0) ** 2) + 2.0 * jnp.log(s["y"]) - s["y"]
+
+
 SCHEDULES = {
     "S1": [(1, 4, 1), (3, 2, 1), (4, 6, 2)],
     "S2": [(2, 3, 1), (4, 3, 3), (4, 3, 1)],
@@ -34,10 +39,12 @@ def fmt(a):
 
 
 def one_run(kernel="rw", schedule="S1", seed=7, seedform="int", chains=3, multi=False,
-            inits=(0.25, 0.25, 0.25), jitter=False, engine_seed="none", rebuild=False):
+            inits=(0.25, 0.25, 0.25), jitter=False, engine_seed="none", rebuild=False, support=False):
     """engine_seed: "none" | "int" | "key" - EngineBuilder.set_engine_seed with seed + 100 in that form;
-    rebuild: the engine is built twice from the same builder and the second engine is run."""
-    cid = f"{kernel}|{schedule}|c{chains}|seed{seed}|jit{int(jitter)}|es{int(engine_seed != 'none')}"
+    rebuild: the engine is built twice from the same builder and the second engine is run;
+    support: the model's log-density is NaN for y <= 0 and the jitter of y is the shift y - 0.3, so that a chain
+    with a small initial y starts outside the support (its neighbours must not notice)."""
+    cid = f"{kernel}|{schedule}|c{chains}|seed{seed}|jit{int(jitter)}|es{int(engine_seed != 'none')}|sup{int(support)}"
     ev = {"ev": "run", "cid": cid, "seedform": seedform, "multi": bool(multi),
           "inits": [repr(float(v)) for v in inits], "digests": [], "first": [], "expect": [],
           "jitter_keys_distinct": True, "crash": ""}
@@ -45,7 +52,7 @@ def one_run(kernel="rw", schedule="S1", seed=7, seedform="int", chains=3, multi=
     try:
         sd = seed if seedform == "int" else jax.random.PRNGKey(seed)
         b = gs.EngineBuilder(seed=sd, num_chains=chains)
-        b.set_model(gs.DictInterface(logp))
+        b.set_model(gs.DictInterface(logp_pos if support else logp))
         if engine_seed != "none":
             b.set_engine_seed(seed + 100 if engine_seed == "int" else jax.random.PRNGKey(seed + 100))
         if multi:
@@ -70,7 +77,7 @@ def one_run(kernel="rw", schedule="S1", seed=7, seedform="int", chains=3, multi=
             def make_jit(name):
                 def jit_fn(key, val):
                     u = jax.random.uniform(key, val.shape, val.dtype, -1.0, 1.0)
-                    out = val + u if name == "x" else val * (2.0 + u)     # a different function per position key
+                    out = val + u if name == "x" else (val - 0.3 + 0.0 * u if support else val * (2.0 + u))   # per key
                     jax.debug.callback(lambda k, v, o: calls.append((name, np.asarray(k), np.asarray(v), np.asarray(o))),
                                        key, val, out, ordered=False)
                     return out
@@ -111,6 +118,8 @@ def one_run(kernel="rw", schedule="S1", seed=7, seedform="int", chains=3, multi=
                 return np.full_like(v0, np.nan)
             keys_seen.setdefault(name, []).append(tuple(int(z) for z in k))
             u = np.asarray(jax.random.uniform(jnp.asarray(k), v0.shape, jnp.float32, -1.0, 1.0))
+            if support and name == "y":
+                return v0 - np.float32(0.3) + np.float32(0.0) * u
             return v0 + u if name == "x" else v0 * (np.float32(2.0) + u)
 
         keys_seen = {}
@@ -152,6 +161,10 @@ def table_jobs(quick=True):
             dict(base, seedform="int", inits=(0.25, 0.25, 0.25), rebuild=True),
         ]
         tabs.append(t)
+    # one chain's jittered start lies outside the support (NaN log-density): the other chains still get their jitter and
+    # their trajectories do not depend on that neighbour
+    base = dict(kernel="rw", schedule="S1", seed=13, chains=3, support=True, jitter=True, multi=True)
+    tabs.append([dict(base, inits=(2.0, 3.0, 4.0)), dict(base, inits=(2.0, 3.0, 0.4)), dict(base, inits=(2.0, 0.2, 4.0))])
     # EngineBuilder.set_engine_seed in both forms, for several chain counts (a raw key has shape (2,))
     for chains in ((2, 1) if quick else (2, 1, 4)):
         base = dict(kernel="rw", schedule="S1", seed=11, chains=chains)
